@@ -312,6 +312,11 @@ class Machine:
                 if name == "process_events":
                     return ("result", ("pa", self.child_result))
                 return ("result", ("unit",))
+            if recv == ("ref", "self"):
+                # the wrapper calling one of its own EventSource methods (e.g. reregister delegating to unregister)
+                own = self.facts.body("<TransientSource as EventSource>::" + name)
+                if own is not None:
+                    return self.run(own, {i + 1: a for i, a in enumerate(args)})
             raise Unsupported("EventSource::%s on %s" % (name, recv))
         if path == "std::mem::take":
             if args[0] == ("ref", "state"):
